@@ -176,7 +176,8 @@ class RecordRun:
         for i, p in enumerate(self.payloads):
             if p == data:
                 return i + 1
-        return "forged:" + bytes(data[:6]).hex()
+        # bytes nobody sent as a record (forged, or a piece of one): a number no payload has (the observer compares numbers)
+        return 900000 + len(data) % 1000
 
     def _drain_src(self):
         t = self.src.transport
@@ -441,7 +442,7 @@ class RecordRun:
                "pendingReads": sum(1 for r in self.reads if r is None), "consumerDone": self.consumer_done,
                "consumerBytes": self.consumer_bytes, "sentBytes": sum(len(p) for p in self.payloads),
                "expectedBytes": self.expected_total or 0,
-               "gotBytes": sum(len(self.payloads[i - 1]) for i in self.got if isinstance(i, int)),
+               "gotBytes": sum(len(self.payloads[i - 1]) for i in self.got if isinstance(i, int) and 0 < i <= len(self.payloads)),
                "clean": self.at_tamper < 0 and [f for f, _ in self.wire] == self.honest[self.consumed:], "inflight": len(self.wire),
                "internal": self.internal, "direction": self.direction, "chunking": self.chunking,
                "consumer": self.consumer_mode, "loopReader": self.loop_reader, "rearmed": self.rearmed,
@@ -761,7 +762,7 @@ def mixed_case(tid, program, arrival, direction):
         pump()
 
     def ident(b):
-        return payloads.index(bytes(b)) + 1 if bytes(b) in payloads else "forged:%d" % len(b)
+        return payloads.index(bytes(b)) + 1 if bytes(b) in payloads else 900000 + len(b) % 1000
     if arrival == "all":
         send(nrec)
     reads, consumers = [], []
